@@ -635,13 +635,18 @@ package rpc
 //@   requires readable(conn, ctx)
 //@   atcall (*Call).done#1: [C05] isnil(conn.readSched)
 //@ func (*Conn).read$1
-//@   requires conn != nil && ctx != nil && call != nil && conn.bufferPool != nil && gb_internal(call) && call.upgrade != nil
+//@   property C02 C05
+//@   requires call != nil
+//@   requires [C02] gf_tok(call) == 2 || gb_internal(call)
+//@   consumes gf_tok(call)
 //@ func (*Conn).read$2
+//@   requires conn != nil && ctx != nil && call != nil && conn.bufferPool != nil && gb_internal(call) && call.upgrade != nil
+//@ func (*Conn).read$3
 //@   property C02 C05
 //@   requires conn != nil && ctx != nil && call != nil && conn.bufferPool != nil
 //@   requires [C02] gf_tok(call) == 2 && !gb_internal(call)
 //@   consumes gf_tok(call)
-//@ func (*Conn).read$3
+//@ func (*Conn).read$4
 //@   property C02 C05
 //@   requires conn != nil && ctx != nil && call != nil && conn.bufferPool != nil
 //@   requires [C02] gf_tok(call) == 2 && !gb_internal(call)
